@@ -238,7 +238,13 @@ fn main() {
             "so2" => run_variant(sc, SO2StateSpace::new(None).unwrap(), &|f| SO2State::new(f[0]), Rc::new(|s: &SO2State| vec![s.value])),
             "so3" => run_variant(
                 sc,
-                SO3StateSpace::new(None).unwrap(),
+                match sc.get("so3_bounds").and_then(|b| b.as_array()) {
+                    Some(b) => {
+                        let b: Vec<f64> = b.iter().map(|x| x.as_f64().unwrap()).collect();
+                        SO3StateSpace::new(Some((SO3State::new(b[0], b[1], b[2], b[3]), b[4]))).unwrap()
+                    }
+                    None => SO3StateSpace::new(None).unwrap(),
+                },
                 &|f| SO3State::new(f[0], f[1], f[2], f[3]),
                 Rc::new(|s: &SO3State| vec![s.x, s.y, s.z, s.w]),
             ),
